@@ -83,16 +83,14 @@ class Gen:
         p, rng = self.p, self.rng
         v = p.fm.vars[vid]
         lines = {}
-        safe_err = None
-        codes = []
         roles = list(roles)
+        plan = []
         for r, role in enumerate(roles):
             st, ct, sd = self.own_box(vid, r)
             if kind == "get":
                 # reads must stay inside the existing records
                 if v.isrec:
                     st[0] = min(st[0], max(p.fm.numrecs - 1, 0))
-            err = ROLE_ERR[role]
             if kind == "get":      # every stored value is representable in double: no range error possible
                 mt = XT2MEM[v.xtype] if rng.random() < 0.5 else ("text" if v.xtype == 2 else "double")
             else:
@@ -115,7 +113,6 @@ class Gen:
                     else:
                         role = "negcount"
                         ct[0] = -1
-                        err = ROLE_ERR[role]
                 else:
                     ct[k] = v.shape[-1] - st[k] + rng.randint(1, 3)
             elif role == "stride":
@@ -127,8 +124,12 @@ class Gen:
                 mt = "int" if v.xtype == 2 else "text"
             elif role == "varid":
                 usevid = rng.choice([len(p.fm.vars), len(p.fm.vars) + 5, -2])
-            codes.append(0 if err == 0 else self.EC[err])
             roles[r] = role
+            plan.append((r, usevid, st, ct, sd, f, mt, role))
+        codes = [0 if ROLE_ERR[x] == 0 else self.EC[ROLE_ERR[x]] for x in roles]
+        self._cur_anybad = any(c != 0 for c in codes)
+        self._cur_minerr = min(codes)
+        for (r, usevid, st, ct, sd, f, mt, role) in plan:
             lines[r] = self.emit_raw(kind, r, usevid, vid, st, ct, sd, f, mt, role)
         self.groups.append({"lines": lines, "kind": kind, "roles": list(roles), "var": v.name.decode(), "form": form, "codes": codes})
         return lines
